@@ -1,5 +1,6 @@
 import NixModel.Pure.Flush
 import NixModel.Lemmas.C17Flush
+import NixModel.Lemmas.C17Open
 
 /-!
 # C17 — `flush()` and `close()` make everything written so far survive a process kill
@@ -9,6 +10,13 @@ Property theorems only; the model is `NixModel/Pure/Flush.lean`, helper lemmas a
 statement lists regenerated from `nixio/file.py` on every run (`Generated/FlushShape.lean`); the
 theorems evaluate decidable shape predicates on them (`*_shape`), so a `close` that no longer flushes
 before the h5py close, or a `flush` that no longer reaches h5py, fails the build here.
+
+The open path (`Pure/FlushOpen.lean`): the decision table of `File.__init__`, the mode → access-flag map and the
+calls of `make_fapl()` are regenerated too (`Generated/OpenShape.lean`); `C17_open_table`, `C17_mode_flags` and
+`C17_fapl_shape` compare them with the model, `C17_open_refines` / `C17_reopen_not_refused` carry every theorem
+about `step` over to the model with the open path, and `C17_locking_fapl_refuses` / `C17_detached_loses` show that
+the two shape conditions are not idle (a lower library-version bound ≥ 1.10, or a file created beside the named
+path, lose the flushed state in the model exactly as observed on libhdf5).
 
 What the theorems carry: the *protocol* (what nixio must ask of h5py, in which order, for every history of
 API calls and every write-back behaviour of the library, over any number of kill / reopen cycles).
@@ -185,6 +193,120 @@ theorem C17_close_needs_flush :
   ⟨run World.init [.open .overwrite, .write (.put "k" "v")], _,
    run_WF _ WF_init, rfl, by decide, _, rfl, by decide⟩
 
+/-! ### the open path: how `File.__init__` reaches libhdf5 (file.py:60-125) -/
+
+/-- the decision table regenerated from `File.__init__` (run symbolically for every state of the path and every
+mode) is the model's `openDecision`, entry by entry -/
+theorem C17_open_table : ∀ ps m, Gen.openTable.lookup (ps, m) = some (openDecision ps m) := by
+  intro ps m; cases ps <;> cases m <;> decide
+
+/-- `map_file_mode` as regenerated; every open of an existing file passes the flag of the caller's mode and keeps
+that mode in `self.mode` (so a ReadOnly session is opened `ACC_RDONLY`); every creation truncates and leaves
+`self.mode = Overwrite` -/
+theorem C17_mode_flags :
+    Gen.modeFlags = [(.readOnly, .rdonly), (.readWrite, .rdwr), (.overwrite, .trunc)] ∧
+    (∀ ps m fl sm, openDecision ps m = .openExisting fl sm → Gen.modeFlags.lookup m = some fl ∧ sm = m) ∧
+    (∀ ps m fl sm, openDecision ps m = .create fl sm → fl = .trunc ∧ sm = .overwrite) := by
+  refine ⟨by decide, ?_, ?_⟩
+  · intro ps m fl sm h
+    cases ps <;> cases m <;> simp [openDecision] at h <;> obtain ⟨rfl, rfl⟩ := h <;> decide
+  · intro ps m fl sm h
+    cases ps <;> cases m <;> simp [openDecision] at h <;> exact ⟨h.1.symm, h.2.symm⟩
+
+/-- `make_fapl()` asks for nothing the model does not understand and for no lower library-version bound that
+makes libhdf5 mark the file persistently as 'open for write'; `h5py.h5f.create` / `h5py.h5f.open` are given the
+caller's path and that property list -/
+theorem C17_fapl_shape :
+    faplModelled Gen.faplCalls = true ∧ locking (faplLow Gen.faplCalls) = false ∧
+    Gen.createPathIsArg = true ∧ Gen.openPathIsArg = true ∧
+    Gen.createFaplIsMakeFapl = true ∧ Gen.openFaplIsMakeFapl = true := by decide
+
+/-- which lower bounds lock: 1.10 and everything newer (observed on libhdf5 for every pair of bounds) -/
+theorem C17_locking_bounds (lo : Libver) : locking lo = true ↔ (lo ≠ .earliest ∧ lo ≠ .v18) := by
+  cases lo <;> decide
+
+/-- **refinement**: with the open path of the source as it is, the model with the open path goes through exactly
+the worlds of `Pure/Flush.lean`, with the same outcome of every call, after every history — so every theorem
+above is a theorem about `stepO Gen.cfg` -/
+theorem C17_open_refines (h : List Ev) :
+    (runO Gen.cfg OWorld.init h).w = run World.init h ∧
+    ∀ e, (stepO Gen.cfg (runO Gen.cfg OWorld.init h) e).1.w = (step (run World.init h) e).1 ∧
+         (stepO Gen.cfg (runO Gen.cfg OWorld.init h) e).2 = (step (run World.init h) e).2 := by
+  have hc : Cfg.plain Gen.cfg := ⟨C17_fapl_shape.2.2.1, C17_fapl_shape.2.1⟩
+  obtain ⟨hw, hp⟩ := runO_plain hc h Plain_init
+  refine ⟨hw, fun e => ?_⟩
+  obtain ⟨h1, h2, _⟩ := stepO_plain hc hp e
+  rw [h1, h2, hw]
+  exact ⟨rfl, rfl⟩
+
+/-- The property with the open path inside: after *every* history, if the file is open, then `flush()` /
+`close()` / leaving the `with` block returns normally, and after any continuation that writes nothing a SIGKILL
+followed by `File.open(path, 'r' | 'a')` **is not refused** and shows exactly the state at that call. -/
+theorem C17_reopen_not_refused (h : List Ev) (hd : Handle) (ho : (run World.init h).handle = some hd)
+    (fin : Ev) (hfin : fin = .flush ∨ fin = .close ∨ fin = .exit)
+    (tail : List Ev) (hq : ∀ e ∈ tail, quiet e = true) (m : Mode) (hm : m ≠ .overwrite) :
+    (stepO Gen.cfg (runO Gen.cfg OWorld.init h) fin).2 = none ∧
+    reopenO Gen.cfg (runO Gen.cfg (stepO Gen.cfg (runO Gen.cfg OWorld.init h) fin).1 tail) m =
+      (none, view (run World.init h)) := by
+  have hc : Cfg.plain Gen.cfg := ⟨C17_fapl_shape.2.2.1, C17_fapl_shape.2.1⟩
+  obtain ⟨hw0, hp0⟩ := runO_plain hc h Plain_init
+  obtain ⟨hw1, he1, hp1⟩ := stepO_plain hc hp0 fin
+  obtain ⟨hw2, hp2⟩ := runO_plain hc tail hp1
+  obtain ⟨hw3, _, hp3⟩ := stepO_plain hc hp2 .kill
+  obtain ⟨hw4, he4, _⟩ := stepO_plain hc hp3 (.open m)
+  have hold := C17_history_durable h hd ho fin hfin tail hq m hm
+  have hwf : WF (run World.init h) := run_WF h WF_init
+  -- the world before the kill is settled on the state at the call
+  have hset : Settled hd.cache (run (step (run World.init h) fin).1 tail) := by
+    have h0 : Settled hd.cache (step (run World.init h) fin).1 := by
+      rcases hfin with rfl | rfl | rfl
+      · exact runBody_syncs Gen.fileFlushBody ho hwf C17_flush_shape.1
+      · exact runBody_syncs Gen.fileCloseBody ho hwf C17_close_shape.1
+      · exact runBody_syncs Gen.fileExitBody ho hwf C17_exit_shape.1
+    exact run_settled tail hq h0
+  have hw0' : (runO Gen.cfg OWorld.init h).w = run World.init h := hw0
+  refine ⟨by rw [he1, hw0']; exact hold.1, ?_⟩
+  refine Prod.ext ?_ ?_
+  · show (stepO Gen.cfg (stepO Gen.cfg _ .kill).1 (.open m)).2 = none
+    rw [he4, hw3, hw2, hw1, hw0']
+    exact openFile_settled_ok m hm (kill_settled hset) rfl
+  · show view (stepO Gen.cfg (stepO Gen.cfg _ .kill).1 (.open m)).1.w = _
+    rw [hw4, hw3, hw2, hw1, hw0']
+    exact hold.2
+
+/-! ### the two shape conditions of the open path are what carries it -/
+
+/-- A lower library-version bound of 1.10 or newer in `make_fapl()`: whoever creates the file and writes,
+flushes — successfully — and is killed leaves a file that **no** later `File.open(path, 'r' | 'a')` can open
+(libhdf5: "file is already open for write"), for every session body. This is the edit `C17_fapl_shape` refuses. -/
+theorem C17_locking_fapl_refuses (cfg : Cfg) (hl : locking cfg.low = true) (ha : cfg.createAtArg = true)
+    (ow : OWorld) (hn : ow.w.handle = none) (body : List Ev) (hb : ∀ e ∈ body, sessionEv e = true)
+    (m : Mode) (hm : m ≠ .overwrite) :
+    (stepO cfg ow (.open .overwrite)).2 = none ∧
+    (stepO cfg (runO cfg (stepO cfg ow (.open .overwrite)).1 body) .flush).2 = none ∧
+    (reopenO cfg (stepO cfg (runO cfg (stepO cfg ow (.open .overwrite)).1 body) .flush).1 m).1 =
+      some .runtimeError := by
+  obtain ⟨h0, hheld0⟩ := create_held hl ha hn
+  have hk := C17_flush_shape.2.2.1
+  have hheld1 := run_held (cfg := cfg) hk body hheld0 hb
+  have hheld2 := session_held (cfg := cfg) hk hheld1 .flush rfl
+  refine ⟨h0, ?_, held_kill_refused hheld2 m hm⟩
+  obtain ⟨hd, ho, _⟩ := hheld1.handle
+  exact runBody_noraise Gen.fileFlushBody ho C17_flush_shape.2.1
+
+/-- A new file created beside the named path (`h5py.h5f.create` not given the caller's path): the flushed state
+is not at the named path — reopening shows what was there before. This is the other edit `C17_fapl_shape`
+refuses. -/
+theorem C17_detached_loses :
+    ∃ (before : OWorld) (hd : Handle) (c : Store),
+      before = runO Gen.cfg OWorld.init [.open .overwrite, .write (.put "k" "old"), .close, .kill] ∧
+      (runO ⟨.earliest, false⟩ before [.open .overwrite, .write (.put "k" "new"), .flush]).w.handle = some hd ∧
+      hd.cache "k" = some "new" ∧
+      reopenO ⟨.earliest, false⟩
+        (runO ⟨.earliest, false⟩ before [.open .overwrite, .write (.put "k" "new"), .flush]) .readOnly
+        = (none, some c) ∧ c "k" = some "old" :=
+  ⟨_, _, _, rfl, rfl, by decide, rfl, by decide⟩
+
 /-! ### refusals and read-only sessions -/
 
 /-- `flush()` and `close()` on a closed file raise (h5py RuntimeError, observed) and change nothing;
@@ -241,5 +363,12 @@ example : (⟨.readWrite, [.write (.put "a" "1"), .writeback ["a"], .flush, .wri
 
 example : quiet (.writeback ["x"]) = true ∧ quiet .flush = true ∧ quiet (.open .readWrite) = true ∧
     quiet (.write (.del "x")) = false := by decide
+
+/-- the locking theorem is about real configurations: 1.10, and `latest`, lock; a concrete run is refused -/
+example : locking .v110 = true ∧ locking .latest = true ∧ locking .v18 = false ∧
+    (reopenO ⟨.latest, true⟩ (runO ⟨.latest, true⟩ OWorld.init [.open .readWrite, .write (.put "a" "1"), .flush])
+      .readWrite).1 = some .runtimeError ∧
+    (reopenO ⟨.latest, true⟩ (runO ⟨.latest, true⟩ OWorld.init [.open .readWrite, .write (.put "a" "1"), .close])
+      .readWrite).1 = none := by decide
 
 end Nix.C17
